@@ -202,9 +202,11 @@ func (b *UnsafeLinkBuffer) Peek(n int) (p []byte, err error) {
 
 	// multiple nodes
 
-	// try to make use of the cap of b.cachePeek, if can't, free it.
+	// try to make use of the cap of b.cachePeek, if can't, replace it.
+	// the old block may still back the result of a previous Peek, so it is
+	// parked in b.caches and only freed by Release.
 	if b.cachePeek != nil && cap(b.cachePeek) < n {
-		free(b.cachePeek)
+		b.caches = append(b.caches, b.cachePeek)
 		b.cachePeek = nil
 	}
 	if b.cachePeek == nil {
